@@ -327,6 +327,15 @@ fn msg_family(ctx: &Ctx, s2: bool, family: &'static str, rule: &'static str, ass
     e2_run(ctx, E2Spec { family, programs, cases, rule, assumptions: assumptions.iter().map(|s| s.to_string()).collect(), alias: None })
 }
 
+fn reply_family(ctx: &Ctx, any_order: bool, family: &'static str, rule: &'static str, assumptions: &[&str]) -> Outcome {
+    let quick = ctx.quick();
+    let (nprog, cases) = if quick { (48usize, 200u32) } else { (320, 800) };
+    let programs = replay_programs(ctx).unwrap_or_else(|| crate::fam_reply(ctx.seed, nprog, &GenOpts::default(), any_order));
+    e2_run(ctx, E2Spec { family, programs, cases, rule, assumptions: assumptions.iter().map(|s| s.to_string()).collect(), alias: None })
+}
+
+const A_REPLY: &str = "reply family domain: 1..3 handler names; per name success-only / error-only / both via two methods / always; methods shared between names via handlers=[..]; all seven data markers; raw / 1..3 typed payload values; generic and custom-typed contracts; reply handlers return the contract's error type and payload types do not mention contract type parameters (both required for such programs to compile)";
+
 pub fn run(ctx: &Ctx) -> i32 {
     let out = match ctx.prop.as_str() {
         "C01" => msg_family(ctx, false, "fam_msg_s1",
@@ -344,6 +353,15 @@ pub fn run(ctx: &Ctx) -> i32 {
         "C05" => msg_family(ctx, true, "fam_msg_s2",
             "(c) for every part and kind of every generated program: <ep>_messages() strictly ascending and equal, as a set, to the top-level keys obtained by serialising one value of every variant. Non-trivial = list with >=2 names or a digit-bearing name.",
             &[A_NATIVE, A_DOMAIN]),
+        "C07" => reply_family(ctx, false, "fam_reply",
+            "fam_reply programs; `cases` replies per program: every declared id and ids belonging to no handler, Ok(SubMsgResponse{0..3 events, data by class, 0..2 msg responses}) / Err(text), any gas_used, payload built by the generated sub-message builder or garbage; through sv::dispatch_reply and the generated reply entry point; reference model computed from the program model: covered outcome => exactly the declared method runs once with the documented arguments and context (gas, env, storage; events/msg responses for success methods), uncovered success => events+data passed through, uncovered failure => that error as the contract's error, unknown id / undecodable payload => error and no handler. Non-trivial = uncovered outcome or an `always` handler.",
+            &[A_ECHO, A_NATIVE, A_REPLY, "valid payload bytes are obtained from the generated builder (its agreement with dispatch is C08)"]),
+        "C08" => reply_family(ctx, false, "fam_reply",
+            "fam_reply programs; ids of distinct handler names pairwise distinct; per handler name `cases` tuples (receiver in {SubMsg with arbitrary id/gas limit/reply_on/payload, WasmMsg, CosmosMsg of every kind}, payload values): builder result compared field-wise with the model (id constant, reply_on from the set of covered outcomes, wrapped message unchanged, gas limit kept / None, raw payload byte for byte) and then dispatched back through dispatch_reply where the handler must receive equal payload values. Non-trivial = >=2 typed payload values or a raw payload with non-UTF-8 bytes.",
+            &[A_ECHO, A_NATIVE, A_REPLY]),
+        "C09" => reply_family(ctx, false, "fam_reply",
+            "fam_reply programs; for every success handler `cases` replies whose data is drawn from the classes absent / well-formed / envelope-malformed (length overrun, wrong wire type, oversized varint, truncated) / JSON-malformed (wrong type, truncated, trailing bytes) / envelope without inner data / envelope of the other kind / random bytes; expected outcome from the data-mode table in the rustdoc of `contract`, using an independent protobuf writer, cw_utils' parsers as the envelope reference and the data type's own serde impl; any failure must be Err with an empty call log. Non-trivial = handler with a data marker (distinct by row, data bytes).",
+            &[A_ECHO, A_NATIVE, A_REPLY, "the cell `opt` marker + well-formed envelope without inner data is not specified by the documentation: either None delivered or a missing-data error is accepted"]),
         "C10" => msg_family(ctx, true, "fam_msg_s2",
             "for every exec / query method of the contract and of each interface (handle typed by the concrete contract and by `dyn Interface<..>`): `cases` tuples (argument values, address, funds set/unset); Remote::executor()[.with_funds]..build() must equal WasmMsg::Execute{addr, funds, body} and the body, fed to the target's generated execute entry point, must run that same method with equal arguments (C02 call-log oracle); the query helper must issue exactly one WasmQuery::Smart to the handle's address whose body the query entry point routes to the same method, and return the decoded handler response; InstantiateBuilder with random label/admin/funds/salt options is compared field by field and its body fed to the instantiate entry point. Non-trivial = method with arguments and non-empty funds, an interface-typed (`dyn`) handle, or >=2 builder options.",
             &[A_ECHO, A_SERDE, A_NATIVE, A_DOMAIN, "Remote::update_admin / clear_admin are covered by the C20 runtime check"]),
